@@ -106,7 +106,10 @@ def flow_cases(draw):
     return {"kind": "flow", "scn": scn, "schedule": draw(gen.schedules()),
             "exotic": draw(st.lists(st.fixed_dictionaries({"at": st.integers(10, 400), "steps": st.integers(10, 200),
                                                            "which": st.integers(0, 7)}), max_size=3)),
-            "late": draw(C.late_ops())}
+            "late": draw(C.late_ops()),
+            # the status query may fail for one or two whole retry windows: the round aborts, it never decides "finished"
+            "faults": draw(st.lists(st.fixed_dictionaries({"kind": st.just("squeue_fail_series"), "nth": st.integers(1, 8),
+                                                           "len": st.sampled_from([7, 14])}), max_size=1))}
 
 
 def strategy(tier):
@@ -118,7 +121,8 @@ def strategy(tier):
 def run_flow_case(case, res):
     """A batch is dropped from the recorded active ids only when it is finished or absent: after every release of the
     cluster lock the recorded hpc_job_ids are compared with the previous ones; an id that disappeared must not belong to a
-    batch that is pending or has a job process running at that very instant."""
+    batch the simulated scheduler still holds as PENDING or RUNNING at that instant (a batch that ended after the round's
+    poll is still recorded, never the other way round; in SLURM mode nothing else removes an id)."""
     import sys
 
     from jv import hpcsim as H
@@ -130,7 +134,8 @@ def run_flow_case(case, res):
     saved = (sys.stdout, sys.stderr)
     W.install_stdio()
     try:
-        with H.Sim(case["scn"], schedule=case["schedule"], snapshots=True, exotic=case.get("exotic", ())) as sim:
+        with H.Sim(case["scn"], schedule=case["schedule"], snapshots=True, exotic=case.get("exotic", ()),
+                   faults=[dict(f) for f in case.get("faults", [])]) as sim:
             C.install_late_ops(sim, case.get("late"))
             sim.submit()
             outcome = sim.drive()
@@ -151,23 +156,25 @@ def run_flow_case(case, res):
                 if holder is None and not s.get("sublock"):
                     # nobody holds the role and no round is in progress: every batch that is alive for certain is recorded
                     # (a batch reaped as "finished" right after its sbatch never makes it into the records)
-                    unrecorded = sorted(set(s.get("alive", [])) - ids)
+                    unrecorded = sorted(set(s.get("active", [])) - ids)
                     if unrecorded:
                         v.append(D.viol("C18:live-batch-treated-as-finished|never-recorded", f"after the round ending with the lock "
-                                        f"release by {s['by']} the scheduler held batch id(s) {unrecorded} (pending, or a job process "
-                                        f"running at that instant) that are not among the recorded active ids {sorted(ids)}"))
+                                        f"release by {s['by']} the scheduler held batch id(s) {unrecorded} pending or running "
+                                        f"that are not among the recorded active ids {sorted(ids)}"))
                         break
                 if prev is not None:
                     gone = prev - ids
                     drops += len(gone)
-                    bad = sorted(gone & set(s.get("alive", [])))
+                    bad = sorted(gone & set(s.get("active", [])))
                     if bad:
                         v.append(D.viol("C18:live-batch-treated-as-finished", f"{s['by']} dropped batch id(s) {bad} from the recorded "
-                                        f"active ids while the scheduler held them pending or with a job process running"))
+                                        f"active ids while the scheduler held them pending or running"))
                         break
                 prev = ids
             if sim.w.events("exotic"):
                 res["classes"].append("flow_batch_shown_in_unusual_state")
+            if sim.w.fault_hits:
+                res["classes"].append("flow_status_query_outage")
             res["classes"].append("flow_max_nodes:" + str(case["scn"]["max_nodes"]))
             res["nontrivial"] = drops >= 2
             if res["nontrivial"] or v:
